@@ -283,6 +283,13 @@ def _walk_own(fnode):
         stack.extend(ast.iter_child_nodes(n))
 
 
+def _is_loop_var(fnode, name):
+    for n in _walk_own(fnode):
+        if isinstance(n, (ast.For, ast.AsyncFor)) and any(isinstance(x, ast.Name) and x.id == name for x in ast.walk(n.target)):
+            return True
+    return False
+
+
 def find_cells(fnode):
     """local names that must be treated as cells (objects with identity / loop-carried state)."""
     params = {a.arg for a in fnode.args.posonlyargs + fnode.args.args + fnode.args.kwonlyargs}
@@ -326,7 +333,7 @@ def find_cells(fnode):
                             r = r.value
                         if isinstance(r, ast.Name):
                             mutated.add(r.id)
-                    elif isinstance(n, ast.AugAssign) and isinstance(x, ast.Name):
+                    elif isinstance(n, ast.AugAssign) and isinstance(x, ast.Name) and not _is_loop_var(fnode, x.id):
                         mutated.add(x.id)
     cells = set()
     for name, bl in binds.items():
